@@ -122,11 +122,10 @@ func cookieSlice(req *protocol.Request, params param.Params, key string, default
 }
 
 func headerSlice(req *protocol.Request, params param.Params, key string, defaultValue ...string) (ret []string) {
-	req.Header.VisitAll(func(headerKey, value []byte) {
-		if bytesconv.B2s(headerKey) == key {
-			ret = append(ret, string(value))
-		}
-	})
+	// (PeekAll spells the key the way the header does, as Peek does for a single value)
+	for _, value := range req.Header.PeekAll(key) {
+		ret = append(ret, string(value))
+	}
 
 	if len(ret) == 0 && len(defaultValue) != 0 {
 		ret = append(ret, defaultValue...)
